@@ -32,8 +32,9 @@ ASSUMPTIONS = [
     "a frame is recognised by the first low level on the line while no frame is in progress",
     "bounded promptness chosen by the harness: a queued byte starts within 3 cycles after the line is free",
 ]
-BOUNDS = "BMC from reset; UARTTransmitter divisor 1,2,3,5 (quick 1,2,3), >= 2 back-to-back/spaced frames; " \
-         "UARTMultibyteTransmitter byte_width 2 (divisor 1,2) and 3 (divisor 1), two words"
+BOUNDS = "BMC from reset; UARTTransmitter divisor 1,2,3,5 (quick 1,2 to two frames, 3 to one frame + start of the next), " \
+         ">= 2 back-to-back/spaced frames; UARTMultibyteTransmitter byte_width 2 (divisor 1,2) and 3 (divisor 1), two words " \
+         "(quick: byte_width 2, divisor 1)"
 OUTSIDE = "divisors above 5 (same counter logic, only the reload constant differs); unbounded streams (bounded by K); " \
           "the `driving` output"
 
@@ -195,18 +196,18 @@ class UartHarness(Harness):
 def queries(tier):
     qs = []
     quick = tier == "quick"
-    for div in ((1, 2, 3) if quick else (1, 2, 3, 5)):
+    # (divisor, K): two back-to-back frames need 20*divisor+3 cycles
+    single = [(1, 26), (2, 46), (3, 40)] if quick else [(1, 36), (2, 66), (3, 66), (5, 106)]
+    for div, K in single:
         f = (lambda div=div: UartHarness(div))
-        K = 10 * div * (2 if quick or div == 5 else 3) + 6
-        qs.append(Query(f"bmc_uart_d{div}", f, K, timeout=600,
+        covers = None if K >= 20 * div + 4 else ["frame_done", "mixed_byte"]
+        qs.append(Query(f"bmc_uart_d{div}", f, K, timeout=900, covers=covers,
                         desc=f"UARTTransmitter divisor={div}: valid/payload free every cycle"))
-    multi = [(2, 1), (2, 2)] if quick else [(2, 1), (2, 2), (3, 1), (2, 3)]
-    for bw, div in multi:
+    # (byte_width, divisor, K): two words need 2*bw*10*div + 4 cycles
+    multi = [(2, 1, 46)] if quick else [(2, 1, 48), (2, 2, 88), (3, 1, 68)]
+    for bw, div, K in multi:
         f = (lambda bw=bw, div=div: UartHarness(div, bw))
-        K = 10 * div * bw * 2 + 8
-        if bw == 3:
-            K = 10 * div * 4 + 8
-        qs.append(Query(f"bmc_multi_w{bw}_d{div}", f, K, timeout=600,
+        qs.append(Query(f"bmc_multi_w{bw}_d{div}", f, K, timeout=900,
                         desc=f"UARTMultibyteTransmitter byte_width={bw} divisor={div}: valid/payload free every cycle"))
     qs.append(Query("cosim_uart_d3", lambda: UartHarness(3), 0, kind="cosim", cosim_cycles=300 if quick else 2000))
     qs.append(Query("cosim_multi_w2_d2", lambda: UartHarness(2, 2), 0, kind="cosim",
